@@ -211,7 +211,8 @@ func EndBlocker(ctx sdk.Context, keeper *keeper.Keeper) error {
 			if err != nil {
 				return false, err
 			}
-			endTime := proposal.VotingStartTime.Add(*params.VotingPeriod)
+			votingPeriod := keeper.GetCustomMsgVotingPeriod(ctx, params.VotingPeriod, proposal)
+			endTime := proposal.VotingStartTime.Add(*votingPeriod)
 			proposal.VotingEndTime = &endTime
 
 			err = keeper.ActiveProposalsQueue.Set(ctx, collections.Join(*proposal.VotingEndTime, proposal.Id), proposal.Id)
